@@ -447,3 +447,98 @@ Proof.
     as ((_ & _ & Hn & _) & _ & Hw & Hg).
   auto.
 Qed.
+
+(* ------------------------------------------------------------------ C05: a sample, once written, never
+   changes value -- along ANY history of public API calls.  Spec level, then the files. *)
+Lemma spec_step_keeps c s g vec k v : SpecOk c s -> s_map s k = Some v -> s_map (spec_step c s (g, vec)) k = Some v.
+Proof.
+  intros (H0 & Hn) Hk. unfold spec_step. destruct (g <? s_cur s) eqn:El; [exact Hk|]. apply Z.ltb_ge in El.
+  cbn [s_map].
+  assert (Hlt : k < c_start c + s_cur s).
+  { destruct (Z_lt_le_dec k (c_start c + s_cur s)); [assumption|]. rewrite Hn in Hk by lia. discriminate. }
+  assert (E : (c_start c + g <=? k) && (k <? c_start c + g + zlen vec) = false)
+    by (apply andb_false_iff; left; apply Z.leb_gt; lia).
+  rewrite E. exact Hk.
+Qed.
+
+Lemma spec_steps_keep c bs : forall s k v, SpecOk c s -> Forall (fun b => 0 <= fst b) bs ->
+  s_map s k = Some v -> s_map (fold_left (spec_step c) bs s) k = Some v.
+Proof.
+  induction bs as [|[g vec] bs IH]; intros s k v Hs Hb Hk; cbn [fold_left]; [exact Hk|].
+  inversion Hb as [|? ? Hg Hb']; subst. cbn [fst] in Hg.
+  apply IH; [exact (proj1 (spec_step_count c s g vec Hs Hg))|exact Hb'|].
+  apply spec_step_keeps; assumption.
+Qed.
+
+Lemma ascending_nonneg cur bs : ascending cur bs -> Forall (fun b => 0 <= fst b) bs.
+Proof.
+  revert cur. induction bs as [|[g v] bs IH]; intros cur H; [constructor|].
+  cbn [ascending] in H. destruct H as (_ & Hg & _ & Hr). constructor; [exact Hg|]. eapply IH; exact Hr.
+Qed.
+
+Lemma api_spec_gapped_keeps c s op k v : SpecOk c s -> api_arg_ok op -> s_map s k = Some v ->
+  s_map (api_spec_gapped c s op) k = Some v /\ SpecOk c (api_spec_gapped c s op).
+Proof.
+  intros Hs Hop Hk. destruct op as [ns vec|G D vec]; cbn [api_spec_gapped].
+  - assert (Hg : 0 <= resolve s ns) by (destruct ns; cbn; [exact Hop|destruct Hs; assumption]).
+    split; [apply spec_step_keeps; assumption|exact (proj1 (spec_step_count c s _ vec Hs Hg))].
+  - cbn [api_arg_ok] in Hop. destruct (py_arrays_ok (s_cur s) (zlen vec) G D) eqn:Eok; [|split; assumption].
+    destruct (c_cont c && multi (combine G D)) eqn:Em.
+    + (* the C library refuses multi-block calls in continuous mode: the Spec step is the identity *)
+      unfold spec_step_blocks, accepted. rewrite Em. cbn [negb]. rewrite andb_false_r. split; assumption.
+    + destruct (blocks_spec_is_sequence c s G D vec Em Eok Hop) as (Hce & Hme).
+      pose proof (py_ok_ascending _ vec G D Eok Hop) as Hasc.
+      destruct (ascending_count c _ s Hs Hasc) as (Hs' & _).
+      split; [rewrite Hme; apply spec_steps_keep; [exact Hs|exact (ascending_nonneg _ _ Hasc)|exact Hk]
+             |exact (SpecOk_ext c _ _ Hce Hme Hs')].
+Qed.
+
+Lemma api_spec_cont_keeps c s op k v : SpecOk c s -> api_arg_ok op -> s_map s k = Some v ->
+  s_map (api_spec_cont c s op) k = Some v /\ SpecOk c (api_spec_cont c s op).
+Proof.
+  intros Hs Hop Hk. destruct op as [ns vec|G D vec]; cbn [api_spec_cont].
+  - assert (Hg : 0 <= resolve s ns) by (destruct ns; cbn; [exact Hop|destruct Hs; assumption]).
+    split; [apply spec_step_keeps; assumption|exact (proj1 (spec_step_count c s _ vec Hs Hg))].
+  - cbn [api_arg_ok] in Hop. destruct (py_arrays_ok (s_cur s) (zlen vec) G D) eqn:Eok; [|split; assumption].
+    pose proof (py_ok_ascending _ vec G D Eok Hop) as Hasc.
+    destruct (ascending_count c _ s Hs Hasc) as (Hs' & _).
+    split; [apply spec_steps_keep; [exact Hs|exact (ascending_nonneg _ _ Hasc)|exact Hk]|exact Hs'].
+Qed.
+
+Lemma SpecOk_init c : SpecOk c spec_init.
+Proof. split; [cbn; lia|]. intros k _. reflexivity. Qed.
+
+Theorem api_spec_never_rewritten_gapped c ops1 ops2 k v : Forall api_arg_ok (ops1 ++ ops2) ->
+  s_map (fold_left (api_spec_gapped c) ops1 spec_init) k = Some v ->
+  s_map (fold_left (api_spec_gapped c) (ops1 ++ ops2) spec_init) k = Some v.
+Proof.
+  intros Hops. apply Forall_app in Hops as (H1 & H2). rewrite fold_left_app.
+  assert (Hs : SpecOk c (fold_left (api_spec_gapped c) ops1 spec_init)).
+  { generalize (SpecOk_init c). generalize spec_init. induction ops1 as [|op tl IH]; intros s Hs; cbn [fold_left]; [exact Hs|].
+    inversion H1 as [|? ? Hop Htl]; subst. apply (IH Htl).
+    destruct op as [ns vec|G D vec]; cbn [api_spec_gapped].
+    - assert (Hg : 0 <= resolve s ns) by (destruct ns; cbn; [exact Hop|destruct Hs; assumption]).
+      exact (proj1 (spec_step_count c s _ vec Hs Hg)).
+    - destruct (py_arrays_ok (s_cur s) (zlen vec) G D) eqn:Eok; [|exact Hs].
+      destruct (c_cont c && multi (combine G D)) eqn:Em.
+      + unfold spec_step_blocks, accepted. rewrite Em. cbn [negb]. rewrite andb_false_r. exact Hs.
+      + destruct (blocks_spec_is_sequence c s G D vec Em Eok Hop) as (Hce & Hme).
+        destruct (ascending_count c _ s Hs (py_ok_ascending _ vec G D Eok Hop)) as (Hs' & _).
+        exact (SpecOk_ext c _ _ Hce Hme Hs'). }
+  revert Hs. generalize (fold_left (api_spec_gapped c) ops1 spec_init).
+  induction ops2 as [|op tl IH]; intros s Hs Hk; cbn [fold_left]; [exact Hk|].
+  inversion H2 as [|? ? Hop Htl]; subst.
+  destruct (api_spec_gapped_keeps c s op k v Hs Hop Hk) as (Hk' & Hs'). apply (IH Htl); assumption.
+Qed.
+
+Theorem api_sample_never_changes_gapped c ops1 ops2 k v : vcfg c -> c_chunk c = true -> c_cont c = false ->
+  Forall api_arg_ok (ops1 ++ ops2) ->
+  lookup_st (p_w (fold_left (api_state c) ops1 py_init)) k = Some v ->
+  lookup_st (p_w (fold_left (api_state c) (ops1 ++ ops2) py_init)) k = Some v.
+Proof.
+  intros Hc Hch Hco Hops Hk.
+  pose proof Hops as Hops'. apply Forall_app in Hops' as (H1 & _).
+  destruct (api_history_gapped c ops1 Hc Hch Hco H1) as (_ & (_ & _ & Hl1 & _) & _).
+  destruct (api_history_gapped c (ops1 ++ ops2) Hc Hch Hco Hops) as (_ & (_ & _ & Hl2 & _) & _).
+  rewrite Hl2. apply api_spec_never_rewritten_gapped; [exact Hops|]. rewrite <- Hl1. exact Hk.
+Qed.
